@@ -21,6 +21,7 @@ package c18
 
 import (
 	"context"
+	"errors"
 	"fmt"
 	"net"
 	"net/http"
@@ -66,6 +67,7 @@ type params struct {
 	Threads int  // 0: sequential histories; 2: concurrent dialling threads, then `Depth` sequential dials
 	Yield   bool // shuffle yields between swaps
 	Fail    bool // the first lookup of the name fails transiently (SERVFAIL), later ones would succeed
+	Refused bool // the first connection attempt of the history is refused (whatever address it goes to), later ones succeed
 	TTL     int  // >0: refresh scenario instead: DNSCaching(1s) with a ticker that may fire TTL times; `Depth` steps, each a dial or a change of the host's DNS records
 	CT      int  // >0: connect-to scenario instead: CT replacement addresses, `Threads` threads dialling the mapped address `Depth` times each
 }
@@ -79,6 +81,9 @@ func (p params) name() string {
 	}
 	if p.Fail {
 		return fmt.Sprintf("set=%s,depth=%d,first-lookup-fails", p.Set, p.Depth)
+	}
+	if p.Refused {
+		return fmt.Sprintf("set=%s,depth=%d,first-connection-refused", p.Set, p.Depth)
 	}
 	return fmt.Sprintf("set=%s,depth=%d,threads=%d,yield=%v", p.Set, p.Depth, p.Threads, p.Yield)
 }
@@ -261,6 +266,20 @@ func (w *world) mainTTL() {
 		}
 	}
 	w.hist = hist
+	// with a refresh interval the attacker keeps refreshing until it is stopped: whoever does that must still be
+	// there now (were it gone, no later change of the records would ever be seen, however long the attack runs -
+	// which a history of a few steps cannot show by waiting)
+	if w.bad == "" {
+		alive := 0
+		for _, t := range vsched.S.AllThreads() {
+			if t != vsched.Cur() && !t.Done() {
+				alive++
+			}
+		}
+		if alive == 0 {
+			w.bad = fmt.Sprintf("refresh: nothing refreshes the cache any more although the attacker was not stopped; history %v", hist)
+		}
+	}
 	atk.Stop()
 }
 
@@ -282,9 +301,15 @@ func (w *world) main() {
 	// thread-indexed recording: the base dial is called from the goroutines the
 	// dial path spawns, so the caller passes its index through the context
 	type key struct{}
+	refusedOne := false
 	tr := &http.Transport{DialContext: func(ctx context.Context, network, addr string) (net.Conn, error) {
 		i, _ := ctx.Value(key{}).(int)
 		w.dials[i] = append(w.dials[i], addr)
+		if p.Refused && !refusedOne {
+			// a server that was down for a moment: the address stays a resolved address of the host
+			refusedOne = true
+			return nil, errors.New("connect: connection refused")
+		}
 		return fakeConn{}, nil
 	}}
 	vegeta.NewAttacker(vegeta.Client(&http.Client{Transport: tr}), vegeta.DNSCaching(0))
@@ -292,7 +317,7 @@ func (w *world) main() {
 	dialOnce := func(i int) []string {
 		before := len(w.dials[i])
 		_, err := tr.DialContext(context.WithValue(context.Background(), key{}, i), "tcp", name)
-		if err != nil && w.bad == "" && !p.Fail {
+		if err != nil && w.bad == "" && !p.Fail && !p.Refused {
 			w.bad = fmt.Sprintf("dial failed: %v", err)
 		}
 		return append([]string(nil), w.dials[i][before:]...)
@@ -445,6 +470,8 @@ func plans() []plan {
 	// connect-to under concurrent dials
 	ps = append(ps, plan{params{CT: 2, Threads: 2, Depth: 1}, -1}, plan{params{CT: 2, Threads: 2, Depth: 2}, -1},
 		plan{params{CT: 3, Threads: 3, Depth: 1}, -1}, plan{params{CT: 3, Threads: 2, Depth: 3}, ev.Pick(3, -1)})
+	// the first connection attempt is refused: the address remains one of the host's and keeps being used
+	ps = append(ps, plan{params{Set: "v4x2", Depth: 3, Refused: true}, -1}, plan{params{Set: "v4x3", Depth: 3, Refused: true}, -1}, plan{params{Set: "v4x2v6x1", Depth: 3, Refused: true}, -1})
 	// the first lookup of a name fails transiently
 	ps = append(ps, plan{params{Set: "v4x2", Depth: 3, Fail: true}, -1}, plan{params{Set: "v4x2v6x1", Depth: 2, Fail: true}, -1})
 	// refresh goroutine: records change while the cache is refreshed on a ticker
